@@ -16,6 +16,7 @@ func init() { register("C19", propC19, false, false) }
 func propC19(c *Ctx) {
 	c.R.Explanation = "Decides the mechanism of the ban for every directive kind: (a) every construction of a Directive from a scanned keyword is dominated by a comma-ok lookup of the ban set keyed by the kind obtained from NewDirectiveType, whose hit branch returns a located error (so directives at top level, in included files and inside MACRO bodies, pasted or not, are tested); (b) the INCLUDE branch of the scan loop consults the ban with key directive.Include before any file-system access; (c) addDirective consults it before dispatch; (d) the ban set is written only by WithBannedDirectives into a map allocated per core, and read only through by-kind lookups, so an unused ban changes nothing; (e) a banned keyword is seen by the scanner after a Description whatever the line ends are (keyword pre-filters, end-of-Description predicate, LF/CR symmetry of the automaton). Not decided: that the error message text/line equals the expected one for every layout."
 	c.ruleC19()
+	c.ruleSameSource() // the refusal is located on the banned directive: file and index of every error come from one object
 	// a directive can only be refused if it is seen: after the free text of a Description the next keyword must be
 	// recognised whatever the line ends of the file are
 	c.ruleNextDirectiveRecognised("C19-NEXT-DIRECTIVE")
